@@ -218,11 +218,12 @@ def mkEnv (t : Tables) (drv : DriverResult VV) : Env VV where
   lt := fun a b => (t.lt.get (mkKey [a, b])).getD false
   split := fun v => (t.split.get v).getD ("ORACLE-MISS split", "ORACLE-MISS split")
 
-def parseReq (j : Json) : R (Request JJ) := do
+def parseReq (j : Json) : R (Request JJ VV) := do
   match ← arr j with
   | [.str "change", spec, .str p] => return .change (parseSpec (← optS spec)) p
   | [.str "do", spec, data] => return .do_ (parseSpec (← optS spec)) (← optS data)
   | [.str "read", spec, .bool b] => return .read (parseSpec (← optS spec)) b
+  | [.str "assign", .str m, .str a, raw] => return .assign m a (← optS raw)
   | _ => throw s!"bad request {j.compress}"
 
 def replyJson : Reply JJ → Json
@@ -283,7 +284,7 @@ def withCache (n : Node JJ VV) (rows : List (String × String × VV × Option St
 def stripIdent (c : Cache VV) : Cache VV :=
   c.map (fun me => (me.1, me.2.map (fun ae => (ae.1, { ae.2 with readerror := ae.2.readerror.map (fun e => ⟨e.cls, ""⟩) }))))
 
-def runSteps (n : Node JJ VV) : List (Env VV × Request JJ) → List (Outcome JJ VV) := run predef n
+def runSteps (n : Node JJ VV) : List (Env VV × Request JJ VV) → List (Outcome JJ VV) := run predef n
 
 /-- rows `[step, mod, attr, payload, previous, {"ok": value} | {"err": class}]` of the accept oracle, for parameters
 whose datatype tree is given in `dtrees` (`[mod, attr, tree]`): first row the datatype model (C01) disagrees with -/
@@ -358,6 +359,7 @@ def handle (j : Json) : R Json := do
             | .allowDo m a arg => s!"allow {m}.{a} arg={arg}"
             | .allow .. => "?"
           | .read .. => "read-only"
+          | .assign .. => "assignment: no driver call"
         bad := some (i, why)
       i := i + 1
     if bad.isNone then
